@@ -16,9 +16,11 @@ import ast
 import atexit
 import contextlib
 import copy
+import dataclasses
 import enum
 import hashlib
 import io
+import json
 import logging
 import os
 import pickle
@@ -39,14 +41,15 @@ from props import c11_objs as O
 
 from commonroad.common.file_reader import CommonRoadFileReader
 from commonroad.common.file_writer import CommonRoadFileWriter
-from commonroad.common.util import FileFormat, Interval
+from commonroad.common.util import AngleInterval, FileFormat, Interval
 from commonroad.common.writer.file_writer_interface import OverwriteExistingFile
-from commonroad.geometry.shape import Circle, Rectangle
+from commonroad.geometry.shape import Circle, Polygon, Rectangle, Shape, ShapeGroup
 from commonroad.prediction.prediction import SetBasedPrediction, TrajectoryPrediction
+from commonroad.scenario.intersection import Intersection, IntersectionIncomingElement
 from commonroad.scenario.obstacle import (DynamicObstacle, EnvironmentObstacle, ObstacleType, PhantomObstacle,
                                           StaticObstacle)
 from commonroad.scenario.scenario import Scenario, ScenarioID, Tag
-from commonroad.scenario.state import CustomState, InitialState, KSState
+from commonroad.scenario.state import CustomState, InitialState, KSState, PMState, STState
 from commonroad.scenario.trajectory import Trajectory
 
 RULE = ("cases = (scenario seed, source in {generated, read back from XML, read back from protobuf}, <= 10 read-only "
@@ -98,13 +101,7 @@ def snapshot(obj, _depth=0):
     if isinstance(obj, dict):
         items = [[snapshot(k, _depth + 1), snapshot(v, _depth + 1)] for k, v in obj.items()]
         return {"__dict__": sorted(items, key=lambda kv: repr(kv[0])), "__type__": type(obj).__name__}
-    d = {}
-    if hasattr(obj, "__dict__"):
-        d.update(vars(obj))
-    for cls in type(obj).__mro__:
-        for s in getattr(cls, "__slots__", ()):
-            if hasattr(obj, s):
-                d[s] = getattr(obj, s)
+    d = raw_fields(obj)
     if not d and not hasattr(obj, "__dict__"):
         return repr(obj)
     cn = type(obj).__name__
@@ -114,6 +111,29 @@ def snapshot(obj, _depth=0):
             continue
         out[k] = snapshot(d[k], _depth + 1)
     return out
+
+
+def raw_fields(obj):
+    """instance dictionary and slots of an object"""
+    d = {}
+    if hasattr(obj, "__dict__"):
+        d.update(vars(obj))
+    for cls in type(obj).__mro__:
+        for s in getattr(cls, "__slots__", ()):
+            if hasattr(obj, s):
+                d[s] = getattr(obj, s)
+    return d
+
+
+def digest(obj, without=()):
+    """the stored values below an object (snapshot: arrays by value, also those nested in shapes used as positions) as
+    one 56-bit number; [without]: fields of the object itself that are left out"""
+    if without:
+        snap = [type(obj).__name__] + [[k, snapshot(v)] for k, v in sorted(raw_fields(obj).items())
+                                       if k not in without and k not in SKIP]
+    else:
+        snap = snapshot(obj)
+    return int.from_bytes(hashlib.sha1(json.dumps(snap, sort_keys=True, default=str).encode()).digest()[:7], "big")
 
 
 @contextlib.contextmanager
@@ -137,7 +157,72 @@ def headless_traj(rng, t0, n):
                                        velocity=scen.rnd(rng, 1, 9)) for i in range(n)])
 
 
-def gen_scenario(rng):
+def off_centre_shape(rng):
+    """an obstacle shape whose reference point is not the centre of its bounding box"""
+    k = rng.choice(["rect", "circ", "poly", "rear", "rear", "group"])
+    if k == "rear":   # vehicle outline referenced at the rear axle
+        ln, w, r = scen.rnd(rng, 2, 6), scen.rnd(rng, 1, 2.5), scen.rnd(rng, 0.2, 1.5)
+        return Polygon(np.array([[-r, -w / 2], [-r, w / 2], [ln - r, w / 2], [ln - r, -w / 2]]))
+    if k == "rect":
+        return Rectangle(scen.rnd(rng, 1, 6), scen.rnd(rng, 0.5, 3), np.array([scen.rnd(rng, -2, 2), scen.rnd(rng, -1, 1)]),
+                         rng.choice([0.0, scen.rnd(rng, -1.5, 1.5)]))
+    return scen.rand_shape(rng, (k,), False, 0.7)
+
+
+def uncertain_traj(rng, t0, n):
+    """trajectory whose states have position regions (rectangle / circle / polygon) and / or orientation intervals;
+    coordinates are floats, now and then integers"""
+    cls = rng.choice([KSState, KSState, PMState, STState, CustomState, "custom_vy"])
+    if cls == "custom_vy":
+        traj = O.gen_traj(rng, t0, n, "custom_vy")
+        for st in traj.state_list:
+            if rng.random() < 0.6:
+                st.position = scen.rand_shape(rng, ("rect", "circ", "poly"), False)
+    else:
+        traj = scen.rand_trajectory(rng, t0, n, cls, uncertain=True)
+    if rng.random() < 0.15:
+        for st in traj.state_list:
+            if isinstance(st.position, np.ndarray):
+                st.position = np.array([int(round(st.position[0])), int(round(st.position[1]))])
+    return traj
+
+
+def widen(rng, sc, oid):
+    """more of a scenario: further intersections (several incoming elements, successors to the right / straight /
+    left, crossings) and obstacles with uncertain states and off-centre shapes"""
+    net = sc.lanelet_network
+    ids = [la.lanelet_id for la in net.lanelets]
+
+    def some(lo, hi):
+        return set(rng.sample(ids, min(len(ids), rng.randint(lo, hi))))
+    nid = 300
+    for _ in range(rng.choice([0, 1, 1, 2])):
+        incs = []
+        for _ in range(rng.randint(1, 3)):
+            incs.append(IntersectionIncomingElement(nid, some(1, 2), successors_right=some(0, 2),
+                                                    successors_straight=some(0, 2), successors_left=some(0, 2),
+                                                    left_of=incs[-1].incoming_id if incs and rng.random() < 0.4
+                                                    else None))
+            nid += 1
+        net.add_intersection(Intersection(nid, incs, crossings=some(0, 2)))
+        nid += 1
+    for _ in range(rng.choice([0, 1, 1, 2])):
+        t0 = rng.choice([0, 0, 2])
+        shape = off_centre_shape(rng) if rng.random() < 0.8 else scen.rand_shape(rng, ("rect", "circ"))
+        init = scen.rand_state(rng, InitialState, t0, uncertain=rng.random() < 0.6)
+        role = rng.choice(["traj", "traj", "traj", "traj", "static", "none"])
+        if role == "static":
+            sc.add_objects(StaticObstacle(oid, ObstacleType.PARKED_VEHICLE, shape, init))
+        elif role == "none":
+            sc.add_objects(DynamicObstacle(oid, ObstacleType.CAR, shape, init, None))
+        else:
+            traj = uncertain_traj(rng, t0 + 1, rng.randint(1, 4))
+            sc.add_objects(DynamicObstacle(oid, rng.choice([ObstacleType.CAR, ObstacleType.TRUCK, ObstacleType.BICYCLE]),
+                                           shape, init, TrajectoryPrediction(traj, shape)))
+        oid += 1
+
+
+def gen_scenario(rng, wide=False):
     net = scen.rand_network(rng)
     sc = Scenario(0.1, ScenarioID(False, "ZAM", "Test", rng.randint(1, 9), rng.randint(1, 9), "T", 1),
                   author="a", tags={Tag.URBAN, Tag.HIGHWAY} if rng.random() < 0.5 else {Tag.URBAN},
@@ -172,6 +257,8 @@ def gen_scenario(rng):
                                        TrajectoryPrediction(traj, shape)))
     ids = [la.lanelet_id for la in sc.lanelet_network.lanelets]
     pps = scen.rand_planning_problem_set(rng, lanelet_ids=ids)
+    if wide:   # after everything else: the scenarios of earlier replays (no "wide" key) stay what they were
+        widen(rng, sc, 600)
     return sc, pps
 
 
@@ -201,11 +288,64 @@ def export_bytes(sc, pps, fmt, workdir):
 
 
 FALLBACK = {}
+COVER = {}
+
+
+def _off_centre(shape):
+    """raw data only: is the reference point of the shape away from the centre of its bounding box?"""
+    if isinstance(shape, ShapeGroup):
+        return True
+    if isinstance(shape, Polygon):
+        v = np.asarray(shape._vertices, dtype=float)
+        return bool(np.linalg.norm((v.min(axis=0) + v.max(axis=0)) / 2.0) > 1e-9)
+    return bool(np.linalg.norm(np.asarray(shape._center, dtype=float)) > 1e-12)
+
+
+def _uncertain(st):
+    d = raw_fields(st)
+    return isinstance(d.get("position"), Shape) or isinstance(d.get("orientation"), AngleInterval)
+
+
+def cover(case, sc):
+    """which of the generator dimensions a case reaches (for the evidence)"""
+    def hit(k):
+        COVER[k] = COVER.get(k, 0) + 1
+    unc = off = both = False
+    for o in sc.dynamic_obstacles:
+        p = o._prediction
+        if isinstance(p, TrajectoryPrediction):
+            u = any(_uncertain(st) for st in p._trajectory._state_list)
+            f = _off_centre(p._shape)
+            unc, off, both = unc or u, off or f, both or (u and f)
+    if unc:
+        hit("scenario_with_uncertain_trajectory_state")
+    if off:
+        hit("scenario_with_off_centre_obstacle_shape")
+    if both:
+        hit("scenario_with_uncertain_state_and_off_centre_shape")
+    if any(_uncertain(o._initial_state) for o in sc.dynamic_obstacles + sc.static_obstacles):
+        hit("scenario_with_uncertain_initial_state")
+    xs = sc.lanelet_network.intersections
+    if sum(len(x._incomings) for x in xs) >= 2:
+        hit("scenario_with_2_or_more_incoming_elements")
+    if len(xs) >= 2:
+        hit("scenario_with_2_or_more_intersections")
+    for op in case["ops"]:
+        if op[0] == "draw":
+            hit("draw")
+            flips = op[4] if len(op) > 4 else []
+            if flips:
+                hit("draw_with_non_default_flags")
+            if flips.count("lanelet_network.intersection.draw_intersections") % 2:
+                hit("draw_with_intersections_highlighted")
+            if len(op) > 3 and op[3]:
+                hit("draw_parameters_per_call_or_part_by_part")
 
 
 def make(case, workdir):
     rng = random.Random(case["seed"])
-    sc, pps = gen_scenario(rng)
+    wide = bool(case.get("wide"))
+    sc, pps = gen_scenario(rng, wide)
     src = case["source"]
     if src == "gen":
         return sc, pps
@@ -219,7 +359,7 @@ def make(case, workdir):
     except Exception:  # noqa  (a generated scenario the format cannot hold: judged by C01-C03; use it as generated)
         FALLBACK[src] = FALLBACK.get(src, 0) + 1
         rng = random.Random(case["seed"])
-        return gen_scenario(rng)
+        return gen_scenario(rng, wide)
 
 
 # ------------------------------------------------------------------------------------------ model state
@@ -245,7 +385,7 @@ def zl(xs):
 
 def m_tstate(st):
     prop = isinstance(getattr(type(st), "orientation", None), property)
-    return [int(st.time_step), list(vars(st).keys()), prop]
+    return [int(st.time_step), list(vars(st).keys()), prop, digest(st)]
 
 
 def m_pred(p):
@@ -259,13 +399,27 @@ def m_pred(p):
 
 
 def m_obst(o):
+    # the obstacle's own stored data; of a trajectory prediction everything but the trajectory (modelled state by state)
+    p = getattr(o, "_prediction", None)
+    val = digest([digest(o, without=("_prediction",)),
+                  digest(p, without=("_trajectory",)) if isinstance(p, TrajectoryPrediction) else digest(p)])
     if isinstance(o, StaticObstacle):
-        return ["Static", int(o.initial_state.time_step), ["none"]]
+        return ["Static", int(o.initial_state.time_step), ["none"], val]
     if isinstance(o, DynamicObstacle):
-        return ["Dynamic", int(o.initial_state.time_step), m_pred(o._prediction)]
+        return ["Dynamic", int(o.initial_state.time_step), m_pred(o._prediction), val]
     if isinstance(o, PhantomObstacle):
-        return ["Phantom", 0, m_pred(o._prediction)]
-    return ["Env", 0, ["none"]]
+        return ["Phantom", 0, m_pred(o._prediction), val]
+    return ["Env", 0, ["none"], val]
+
+
+def _idl(x):
+    return sorted(int(v) for v in (x or ()))
+
+
+def m_inters(net):
+    return [[int(x._intersection_id),
+             [[int(i._incoming_id), _idl(i._incoming_lanelets), _idl(i._successors_right), _idl(i._successors_straight),
+               _idl(i._successors_left)] for i in x._incomings], _idl(x._crossings)] for x in net.intersections]
 
 
 def m_state(sc, pps):
@@ -295,11 +449,11 @@ def m_state(sc, pps):
                       [] if tab is None else [[int(k), [int(x) for x in v]] for k, v in tab.items()]])
     return {"obst": [m_obst(o) for o in sc.obstacles], "lanelets": lls,
             "buffered": [int(k) for k in net._buffered_polygons.keys()], "tree": tree, "lights": lights,
-            "goals": goals}
+            "goals": goals, "inters": m_inters(net)}
 
 
 def q_tstate(t):
-    return f"(Build_tstate {qz(t[0])} {qlist([q_attr(a) for a in t[1]])} {qb(t[2])})"
+    return f"(Build_tstate {qz(t[0])} {qlist([q_attr(a) for a in t[1]])} {qb(t[2])} {qz(t[3])})"
 
 
 def q_pred(p):
@@ -311,19 +465,93 @@ def q_pred(p):
 
 
 def q_state(m):
-    obst = qlist([f"(Build_obst {o[0]} {qz(o[1])} {q_pred(o[2])})" for o in m["obst"]])
+    obst = qlist([f"(Build_obst {o[0]} {qz(o[1])} {q_pred(o[2])} {qz(o[3])})" for o in m["obst"]])
     lls = qlist([f"(Build_lanelet {qz(x[0])} {qb(x[1])} {qb(x[2])})" for x in m["lanelets"]])
     lights = qlist(["None" if c is None else f"(Some (Build_cycle {zl(c[0])} {qz(c[1])} {qopt(c[2], zl)}))"
                     for c in m["lights"]])
     tree = m["tree"]
     if tree is not None and any(x == "unindexed" for x in tree):
         tree = [-1] * len(tree)
-    net = f"(Build_net {lls} {zl(m['buffered'])} {qopt(tree, zl)} {lights})"
+    inters = qlist([f"(Build_inter {qz(x[0])} "
+                    + qlist([f"(Build_incoming {qz(i[0])} {zl(i[1])} {zl(i[2])} {zl(i[3])} {zl(i[4])})" for i in x[1]])
+                    + f" {zl(x[2])})" for x in m["inters"]])
+    net = f"(Build_net {lls} {zl(m['buffered'])} {qopt(tree, zl)} {lights} {inters})"
     kv = lambda items: qlist([f"({qz(k)}, {zl(v)})" for k, v in items])  # noqa
     goals = qlist([f"(Build_goal {q_nat(g[0])} "
                    + ("TNone" if g[1] == "none" else f"(TDefault {kv(g[2])})" if g[1] == "default"
                       else f"(TDict {kv(g[2])})") + ")" for g in m["goals"]])
     return f"(Build_scen {obst} {net} {goals})"
+
+
+# ------------------------------------------------------------------------------------------ draw parameters
+def _flag_paths(node, prefix=""):
+    out = []
+    for f in dataclasses.fields(node):
+        if f.name.startswith("_"):
+            continue
+        v = getattr(node, f.name)
+        if isinstance(v, bool):
+            out.append(prefix + f.name)
+        elif dataclasses.is_dataclass(v):
+            out.extend(_flag_paths(v, prefix + f.name + "."))
+    return out
+
+
+_FLAGS = []
+
+
+def draw_flags():
+    """the paths of all boolean flags of the draw-parameter tree (read off MPDrawParams)"""
+    if not _FLAGS:
+        from commonroad.visualization.draw_params import MPDrawParams
+        _FLAGS.extend(_flag_paths(MPDrawParams()))
+    return _FLAGS
+
+
+def _node(params, path):
+    parts = path.split(".")
+    for a in parts[:-1]:
+        params = getattr(params, a)
+    return params, parts[-1]
+
+
+def make_params(t0, t1, flips):
+    """draw parameters: the defaults with the named flags negated (in order; a flag set on a node is passed on to
+    the nodes below by the library) and the time window"""
+    from commonroad.visualization.draw_params import MPDrawParams
+    params = MPDrawParams()
+    for path in flips:
+        node, name = _node(params, path)
+        setattr(node, name, not getattr(node, name))
+    params.time_begin = t0
+    params.time_end = t1
+    return params
+
+
+def gen_flips(rng):
+    flags = draw_flags()
+    mode = rng.choice(["default", "default", "few", "few", "all_on", "all_on", "random", "random", "random", "invert",
+                       "section", "section"])
+    if mode == "default":
+        return []
+    if mode == "few":
+        return sorted(rng.sample(flags, rng.randint(1, 6)))
+    if mode == "invert":
+        return list(flags)
+    from commonroad.visualization.draw_params import MPDrawParams
+    dflt = MPDrawParams()
+
+    def is_on(path):
+        node, name = _node(dflt, path)
+        return getattr(node, name)
+    # "antialiased" is passed down from every node: leave it alone here, or later entries would undo earlier ones
+    cand = [f for f in flags if not f.endswith("antialiased")]
+    if mode == "all_on":
+        return [f for f in cand if not is_on(f)]
+    if mode == "section":   # every flag of one top-level section on, and a few others negated
+        sec = rng.choice(sorted({f.split(".")[0] for f in cand if "." in f}))
+        return [f for f in cand if f.startswith(sec + ".") and not is_on(f)] + rng.sample(cand, rng.randint(0, 3))
+    return [f for f in cand if rng.random() < 0.5]
 
 
 # ------------------------------------------------------------------------------------------ read-only operations
@@ -483,20 +711,45 @@ def prims(sc, pps, op, workdir, other, other_case=None):
     elif name == "pickle":
         out.append(("Pickle", lambda: (pickle.loads(pickle.dumps(sc)), pickle.loads(pickle.dumps(pps)))))
     elif name == "draw":
+        how = op[3] if len(op) > 3 else 0
+        flips = op[4] if len(op) > 4 else []
+        hl = [False]
+
         def q():
             import matplotlib.pyplot as plt
             from commonroad.visualization.mp_renderer import MPRenderer
             fig = plt.figure(figsize=(3, 2))
+            errs = []
+
+            def part(f, *a, **kw):   # every part is drawn, whatever an earlier one raised
+                try:
+                    f(*a, **kw)
+                except Exception as e:  # noqa
+                    errs.append(e)
             try:
                 with quiet():
-                    rnd = MPRenderer(ax=fig.gca())
-                    rnd.draw_params.time_begin = op[1]
-                    rnd.draw_params.time_end = op[1] + op[2]
-                    sc.draw(rnd)
-                    pps.draw(rnd)
-                    rnd.render()
+                    params = make_params(op[1], op[1] + op[2], flips)
+                    hl[0] = bool(params.lanelet_network.intersection.draw_intersections)
+                    if how == 1:     # parameters given with every call
+                        rnd = MPRenderer(ax=fig.gca())
+                        part(sc.draw, rnd, draw_params=params)
+                        part(pps.draw, rnd, draw_params=params)
+                    else:
+                        rnd = MPRenderer(ax=fig.gca(), draw_params=params)
+                        if how == 2:   # part by part
+                            part(net.draw, rnd)
+                            for o in sc.obstacles:
+                                part(o.draw, rnd)
+                            for pp in pps.planning_problem_dict.values():
+                                part(pp.draw, rnd)
+                        else:
+                            part(sc.draw, rnd)
+                            part(pps.draw, rnd)
+                    part(rnd.render)
             finally:
                 plt.close(fig)
+            if errs:
+                raise errs[0]
 
         def term(before, after):
             occ = [k for k, (a, b) in enumerate(zip(before["obst"], after["obst"]))
@@ -505,7 +758,7 @@ def prims(sc, pps, op, workdir, other, other_case=None):
             cum = [k for k, (a, b) in enumerate(zip(before["lights"], after["lights"]))
                    if a is not None and b is not None and a[2] is None and b[2] is not None]
             nl = lambda ks: qlist([q_nat(k) for k in ks])  # noqa
-            return f"(Draw {nl(occ)} {nl(dist)} {nl(cum)})"
+            return f"(Draw {qb(hl[0])} {nl(occ)} {nl(dist)} {nl(cum)})"
         out.append((term, q))
     elif name == "xml_write":
         out.append(("XmlWrite", lambda: export_bytes(sc, pps, "xml", workdir)))
@@ -555,6 +808,8 @@ def classify(path):
 def run_case(case, workdir, want_model=False):
     """returns (None | (signature, what), trace); trace = (initial model state, [(op terms, raised, model state)])"""
     sc, pps = make(case, workdir)
+    if want_model:
+        cover(case, sc)
     other = []   # an equal scenario built independently, when an == needs one (a copy would itself be an operation)
     src = case["source"]
     s0 = [snapshot(sc), snapshot(pps)]
@@ -632,7 +887,7 @@ def oracle(case):
 # ------------------------------------------------------------------------------------------ generators
 OPS = ["occs", "occs", "occ", "occ", "occset", "occset", "state", "states", "by_pos", "by_shape", "lanelet", "interp",
        "light", "light", "is_reached", "is_reached", "goal_reached", "eq", "hash", "str", "deepcopy", "pickle",
-       "xml_write", "pb_write", "pb_write", "draw"]
+       "xml_write", "pb_write", "pb_write", "draw", "draw"]
 HEAVY = {"occs", "occ", "occset", "lanelet", "interp", "light", "deepcopy", "pickle", "draw", "by_pos"}
 
 
@@ -659,7 +914,7 @@ def gen_op(rng):
     if name in ("is_reached", "goal_reached"):
         return [name, rng.randint(0, 3), rng.getrandbits(30), rng.randint(0, 30) if rng.random() < 0.6 else None]
     if name == "draw":
-        return [name, rng.randint(0, 3), rng.randint(0, 4)]
+        return [name, rng.randint(0, 5), rng.choice([0, 1, 2, 4, 8, 12]), rng.choice([0, 0, 1, 2]), gen_flips(rng)]
     return [name]
 
 
@@ -672,7 +927,8 @@ def gen_case(rng):
             if seen:
                 ops[i] = ["occs", rng.randint(0, 7)]
             seen = True
-    return {"seed": rng.getrandbits(30), "source": rng.choice(["gen", "gen", "xml", "xml", "pb"]), "ops": ops}
+    return {"seed": rng.getrandbits(30), "source": rng.choice(["gen", "gen", "xml", "xml", "pb"]), "ops": ops,
+            "wide": 1}
 
 
 def gen(rng, n):
@@ -706,7 +962,30 @@ def shrink(case):
             ops = trial
         else:
             i += 1
-    return dict(case, ops=ops)
+    case = dict(case, ops=ops)
+    # the draw parameters: drop negated flags (by halves, then one by one) while the signature stays the same
+    budget = [80]
+    for i, op in enumerate(ops):
+        if op[0] != "draw" or len(op) < 5 or not op[4]:
+            continue
+        flips = list(op[4])
+        chunk = max(1, len(flips) // 2)
+        while budget[0] > 0:
+            j = 0
+            while j < len(flips) and budget[0] > 0:
+                trial = flips[:j] + flips[j + chunk:]
+                budget[0] -= 1
+                r = oracle(dict(case, ops=ops[:i] + [op[:4] + [trial]] + ops[i + 1:]))
+                if r and r[0] == base[0]:
+                    flips = trial
+                else:
+                    j += chunk
+            if chunk == 1:
+                break
+            chunk //= 2
+        ops = ops[:i] + [op[:4] + [flips]] + ops[i + 1:]
+        case = dict(case, ops=ops)
+    return case
 
 
 # ------------------------------------------------------------------------------------------ code version (source)
@@ -826,7 +1105,8 @@ def run(ctx):
                 dist[op[0]] = dist.get(op[0], 0) + 1
             failure, trace = run_case(c, wd, want_model=with_model)
             if failure:
-                ctx.fail(failure[0], failure[1], shrink(c))
+                seen = any(f["signature"] == failure[0] for f in ctx.failures)
+                ctx.fail(failure[0], failure[1], c if seen else shrink(c))
                 continue  # the model describes the repaired code; a violating sequence is reported by the oracle
             if with_model:
                 cases.append(c)
@@ -835,6 +1115,8 @@ def run(ctx):
     run_all(load_corpus(ctx.prop) + gen(ctx.rng, n), True)
     ctx.coverage["operations"] = dist
     ctx.coverage["read_back_not_possible_used_as_generated"] = dict(FALLBACK)
+    ctx.coverage["dimensions_reached"] = dict(COVER)
+    ctx.coverage["draw_parameter_flags"] = len(draw_flags())
     corr(ctx, traces if ctx.quick else traces[:1500], cases)
     if (ctx.proof_breaks or ctx.corr_breaks) and not ctx.failures:
         ctx.log(f"proof/correspondence broke ({len(ctx.proof_breaks)}/{len(ctx.corr_breaks)}); widening the search")
